@@ -73,7 +73,7 @@ def sackEnd (r : Outcome Tx) (done : Nat) : Outcome (Option (Tx × List TxEv)) :
 
 theorem receiveSack_eq (t : Tx) (cum : Int) (gaps : List (Nat × Nat)) (now : Int) :
     t.receiveSack cum gaps now
-      = if uint32_gt t.lastSacked cum then .ok none
+      = if t.sackStale cum then .ok none
         else sackEnd (sackCwnd (sackMid t cum gaps now).1 cum (sackAck t cum).2.1
               (decide (t.flight ≥ t.cwnd)) (sackMid t cum gaps now).2.1 (sackMid t cum gaps now).2.2)
               (sackAck t cum).2.1 := by
@@ -378,6 +378,18 @@ theorem sackEnd_shift (k j : Int) (r : Outcome Tx) (done : Nat)
   | crash s => rfl
   | hang => rfl
 
+theorem tsn_minus_one_shift (k x : Int) : tsn_minus_one (σ32 k x) = σ32 k (tsn_minus_one x) := by
+  unfold tsn_minus_one σ32; omega
+
+/-- The "stale or never sent" test of a SACK only looks at serial distances. -/
+theorem sackStale_shift (k j : Int) (t : Tx) (cum : Int) (hl : R32 t.lastSacked) (hc : R32 cum) :
+    (shiftTx k j t).sackStale (σ32 k cum) = t.sackStale cum := by
+  have e1 : (shiftTx k j t).lastSacked = σ32 k t.lastSacked := rfl
+  have e2 : (shiftTx k j t).localTsn = σ32 k t.localTsn := rfl
+  have hm : R32 (tsn_minus_one t.localTsn) := by unfold R32 tsn_minus_one; omega
+  unfold Tx.sackStale
+  rw [e1, e2, tsn_minus_one_shift, σ32_gte k _ _ hc hl, σ32_gt k _ _ hc hm]
+
 /-- `_receive_sack_chunk` (up to the trailing flush / transmit) commutes with the shifts: same verdict
 (ignored / processed / IndexError), shifted state, same timer events. -/
 theorem receiveSack_shift (k j : Int) (t : Tx) (cum : Int) (gaps : List (Nat × Nat)) (now : Int)
@@ -386,10 +398,9 @@ theorem receiveSack_shift (k j : Int) (t : Tx) (cum : Int) (gaps : List (Nat × 
       = omap (shiftSackOut k j) (t.receiveSack cum gaps now) := by
   have hq : QOk t := ⟨ht.sent, ht.out⟩
   rw [receiveSack_eq, receiveSack_eq]
-  have e1 : (shiftTx k j t).lastSacked = σ32 k t.lastSacked := rfl
   have e2 : (shiftTx k j t).cwnd = t.cwnd := rfl
-  rw [e1, σ32_gt k _ _ ht.lastSacked hc, shiftTx_flight, e2]
-  by_cases hg : uint32_gt t.lastSacked cum = true
+  rw [sackStale_shift k j t cum ht.lastSacked hc, shiftTx_flight, e2]
+  by_cases hg : t.sackStale cum = true
   · simp only [hg, if_true]; rfl
   · simp only [hg, Bool.false_eq_true, if_false]
     have hf := sackMid_frame t cum gaps now
